@@ -2,6 +2,7 @@ package termunicode
 
 import (
 	"io"
+	"math/bits"
 	"rare/pkg/color"
 	"rare/pkg/multiterm/termscaler"
 )
@@ -46,11 +47,17 @@ const barUnicodePartCount = len(barUnicode)
 
 // write a length of runes for a given bar parameters
 func barWriteRunes(w io.StringWriter, blockChar rune, val, maxVal, maxLen int64) {
+	if maxVal <= 0 || val <= 0 || maxLen <= 0 {
+		return // nothing to scale against, or nothing to draw
+	}
 	if val > maxVal {
 		val = maxVal
 	}
 
-	blocks := val * maxLen / maxVal
+	// val*maxLen may not fit an int64; the quotient always does (val <= maxVal)
+	hi, lo := bits.Mul64(uint64(val), uint64(maxLen))
+	q, _ := bits.Div64(hi, lo, uint64(maxVal))
+	blocks := int64(q)
 	for blocks > 0 {
 		w.WriteString(string(blockChar))
 		blocks--
